@@ -32,6 +32,7 @@ def check(chk, thorough=False):
     chk.run('C12.n', 'R-TRUTH', 'the certificate of a signer is accepted for the security source only by exact match of the node ID with an identifier of the certificate (match_id: plain membership, three outcomes) (= C15.c clause)', lambda ob: __import__('sa.props.c15', fromlist=['match_id_exact']).match_id_exact(tree, ob), floor=1)
     chk.run('C12.o', 'R-GUARD', 'the security blocks of a reassembled bundle are those of the fragment with offset 0 (the only one that carries them), whatever the order of arrival (= C06.e)', lambda ob: __import__('sa.props.c06', fromlist=['c06e']).c06e(tree, ob), floor=5)
     chk.run('C12.p', 'R-FLOW', 'accepting (removing) one security block leaves every other block in the type index the verify steps search (= C11.d)', lambda ob: __import__('sa.props.c11', fromlist=['c11d']).c11d(tree, ob), floor=5)
+    chk.run('C12.q', 'R-WHO', 'a result that names no key does not verify: the key identification of one result never becomes a default for the next (the shared additional headers are read-only) (= C03.p)', lambda ob: __import__('sa.props.c03', fromlist=['addl_headers_read_only']).addl_headers_read_only(tree, ob), floor=4)
     chk.run('C12.f', 'R-TYPE', 'the recorded deletion reason is a reason code (integer) on every path', lambda ob: c12f(tree, ob), floor=2)
 
 
